@@ -989,11 +989,11 @@ def order_diff(ref, o):
     return None
 
 
-def orders_for(rng, n, quick, exhaustive_upto=5):
+def orders_for(rng, n, quick, exhaustive_upto=5, allow5=False):
     """completion orders for n tasks: all of them for n <= 5, else identity, reverse, rotations and random ones"""
     if n <= 1:
         return [list(range(n))], True
-    if n <= exhaustive_upto and (not quick or n <= 4):
+    if n <= exhaustive_upto and (not quick or n <= 4 or allow5):
         return [list(p) for p in itertools.permutations(range(n))], True
     out = [list(range(n)), list(range(n - 1, -1, -1)), list(range(1, n)) + [0], [n - 1] + list(range(n - 1))]
     for _ in range(3 if quick else 20):
@@ -1910,7 +1910,7 @@ def hist_structure(R, desc, prefix=""):
 def plan_runs(rng, desc, quick, budget):
     """(num_threads, order, real_pool) for one structure: num_threads=1, every/some completion orders, the real pool"""
     n = n_tasks(desc)
-    orders, exhaustive = orders_for(rng, n, quick and budget["n5"] <= 0)
+    orders, exhaustive = orders_for(rng, n, quick, allow5=budget["n5"] > 0)
     if n == 5 and exhaustive:
         budget["n5"] -= 1
     runs = [(1, None, False)]
